@@ -60,14 +60,21 @@ class Gen:
         self.rich = rich
 
     # ------------------------------------------------------------ configurations
-    def cfg(self, nargs=None, kinds=None, allow_pos=True, constraints=True, groups=1):
+    def cfg(self, nargs=None, kinds=None, allow_pos=True, constraints=True, groups=1, exclude=()):
+        """kinds: list to draw the destination kinds from (default: all); exclude: kinds removed from that list."""
         r = self.r
+        if exclude:
+            kinds = [k for k in (kinds or ["flag", "flag", "int", "int", "str", "optint", "dbl", "dbl", "level", "level", "valint", "valint"] + CONT)
+                     if k not in exclude]
         n = nargs or r.randint(1, 7)
         shorts = r.sample(SHORTS, n)
         longs = r.sample(LONGS, n)
         args = []
         for i in range(n):
             kind = r.choice(kinds) if kinds else r.choice(["flag", "flag", "int", "int", "str", "optint", "dbl", "dbl", "level", "level", "valint", "valint"] + CONT)
+            # value arguments usually come in families that set different values in one variable
+            if args and args[-1]["kind"] == "valint" and (not kinds or "valint" in kinds) and r.random() < 0.5:
+                kind = "valint"
             a = new_arg(kind)
             ks = r.random()
             if ks < 0.2:
